@@ -382,6 +382,10 @@ func runC17(c *core.Ctx) {
 		runC17Deep(c)
 		return
 	}
+	if m := c.Index % 8; m == 1 || m == 3 || m == 5 {
+		runC17Borrowed(c)
+		return
+	}
 	kind := dynKinds[c.Index%len(dynKinds)]
 	c.Count("c17-kind:"+kind, 1)
 	// documented constructor preconditions: exercised, allowed to panic
@@ -496,6 +500,43 @@ func runC17Deep(c *core.Ctx) {
 	c.Count("deep-cases", 1)
 }
 
+// borrowFrom lists the properties whose complete case generators C17 borrows.
+var borrowFrom = []string{"C01", "C02", "C03", "C04", "C05", "C06", "C07", "C08", "C09", "C10", "C11", "C12", "C13", "C14", "C15", "C16"}
+
+// runC17Borrowed runs one case of another property - any case its generator
+// can produce at this tier, drawn by a hash of the index - under C17's
+// monitors only (panic, termination, per-call output). Whatever state-deep,
+// size-deep or type-deep mechanism a neighbouring check has is thereby also
+// a C17 workload: a call that panics only on a list grown beyond a
+// thousand elements, or only after a refused load, is reached here too.
+func runC17Borrowed(c *core.Ctx) {
+	c.Only = func(kind string) bool { return kind == "output" }
+	o0, e0 := fdSizes()
+	c.OnCall = func() {
+		o, e := fdSizes()
+		if o != o0 || e != e0 {
+			wo, we := o-o0, e-e0
+			o0, e0 = o, e
+			c.Fail("output", "wrote-to-stdout-or-stderr", "the call wrote %d bytes to standard output and %d to standard error", wo, we)
+		}
+	}
+	defer func() {
+		c.OnCall()
+		c.OnCall = nil
+	}()
+	id := borrowFrom[core.Mix(uint64(c.Index), 0xb0440) % uint64(len(borrowFrom))]
+	p := core.Lookup(id)
+	if p == nil {
+		return
+	}
+	n := p.Cases(c.Tier)
+	j := int(core.Mix(uint64(c.Index), c.Seed, 0x5ca1e) % uint64(n))
+	c.Count("borrowed:"+id, 1)
+	c.Note("case %d of %s under C17's monitors", j, id)
+	c.Borrow(id, j, p.Run)
+	c.Nontrivial()
+}
+
 // runCanary makes the monitors' liveness observable: each canary commits the
 // offence inside a pretend library call and must be caught.
 func runCanary(c *core.Ctx, kind string) {
@@ -523,12 +564,12 @@ func init() {
 	core.Register(&core.Prop{
 		ID:    "C17",
 		Title: "Every operation returns normally and silently for every argument",
-		Cases: func(tier string) int { return tierN(tier, 37800, 2520000) },
+		Cases: func(tier string) int { return tierN(tier, 60480, 4032000) },
 		Run:   runC17,
 		Rule: "one container per case, cycling through all 21 kinds and element types, in a state reached by a random history (a third start empty); 20-120 calls chosen uniformly from ALL exported methods of the container's type as found by reflection, " +
 			"with arguments generated from the parameter types: hostile indices (MinInt, -1, 0, n/2, n-1, n, n+1, MaxInt, ...), domain and probe keys/elements, variadic lists of 0,1,2,3,17 values, hostile JSON for []byte, pure callbacks and valid comparators for func parameters, " +
 			"the receiver itself or another container for same-type parameters; every iterator returned is driven through a random walk (Index/Key/Value/Node read only after a successful move), every node, entry and derived container returned is exercised through its argument-free methods; " +
-			"finally the container is cleared and every method is called once more. Each call runs under the panic monitor, the per-call fstat monitor on fd 1/2, the comparator/step budget and the per-case watchdog. Every case is non-trivial; distinct = distinct hash of the call list.",
+			"finally the container is cleared and every method is called once more. One case in eight is a state-deep workload of another property and three in eight are whole cases borrowed from the generators of C01-C16 (any case of theirs, drawn by a hash of the index), run under C17's monitors only. Each call runs under the panic monitor, the per-call fstat monitor on fd 1/2, the comparator/step budget and the per-case watchdog. Every case is non-trivial; distinct = distinct hash of the call list.",
 		OutputIsViolation: true,
 		CaseBudget:        func(tier string) time.Duration { return 60 * time.Second },
 		Floors: func(tier string, m map[string]int64) []string {
@@ -547,6 +588,11 @@ func init() {
 			}
 			if n < 300 {
 				missing = append(missing, fmt.Sprintf("only %d exported methods were enumerated (< 300)", n))
+			}
+			for _, id := range borrowFrom {
+				if m["borrowed:"+id] < 100 {
+					missing = append(missing, fmt.Sprintf("only %d cases borrowed from %s (< 100)", m["borrowed:"+id], id))
+				}
 			}
 			for _, k := range dynKinds {
 				if m["c17-kind:"+k] < 100 {
